@@ -213,7 +213,7 @@ func init() {
 		Plan: func(tier string, seed int64) *harness.Plan {
 			fc := &freshCache{mem: map[[2]int]string{}, memText: map[string]string{}}
 			return &harness.Plan{
-				N: size(tier, 12000, 200000),
+				N: size(tier, 12000, 400000),
 				Setup: func(c *harness.Ctx) {
 					hooksOn()
 					// inside this run's work directory (recreated empty by the parent for every run): never reuse outcomes of another tree
